@@ -250,13 +250,14 @@ class ApproxZipfDistribution
     thread_local std::uniform_real_distribution<double> uniform_dist{0.0, 1.0};
     const auto target_prob = uniform_dist(g);
 
-    // find a target bin by using a binary search
-    int64_t begin_pos = 0;
-    int64_t end_pos = n_ - 1;
+    // find a target bin by using a binary search (the number of bins may exceed the range of int64_t)
+    uint64_t begin_pos = 0;
+    uint64_t end_pos = (n_ > 1) ? static_cast<uint64_t>(n_) - 1UL : 0UL;
     while (begin_pos < end_pos) {
-      auto pos = (begin_pos + end_pos) >> 1UL;  // NOLINT
-      const auto cdf_val = GetCDF(pos);
+      const auto pos = begin_pos + ((end_pos - begin_pos) >> 1UL);  // NOLINT
+      const auto cdf_val = GetCDF(static_cast<IntType>(pos));
       if (target_prob < cdf_val) {
+        if (pos == begin_pos) break;
         end_pos = pos - 1;
       } else if (target_prob > cdf_val) {
         begin_pos = pos + 1;
@@ -265,7 +266,7 @@ class ApproxZipfDistribution
         break;
       }
     }
-    if (target_prob > GetCDF(begin_pos)) {
+    if (target_prob > GetCDF(static_cast<IntType>(begin_pos))) {
       ++begin_pos;
     }
 
